@@ -59,6 +59,16 @@ pub mod io {
     }
 }
 
+/// the kernel's errno answer to the failed libc call whose event sits at trace position `n` (each modelled libc call appends one event,
+/// so within one run a position names one call); `World::errno` is the thread's errno variable, which later calls can replace
+pub uninterp spec fn kerrno_at(n: nat) -> int;
+
+/// a log line (R28): everything it can do to the model is replace errno
+#[verifier::external_body]
+pub fn log_line(Tracked(w): Tracked<&mut World>)
+    ensures *final(w) == (World { errno: final(w).errno, ..*old(w) }),
+{ unimplemented!() }
+
 pub mod libc {
     use super::*;
     /// process credentials: values opaque (no contract depends on who runs xcp: whether a chown is permitted is the kernel's answer)
@@ -91,7 +101,7 @@ pub mod libc {
                 &&& final(w).trace == old(w).trace.push(Event::Clone(src, dst, r == 0))
                 &&& r == 0 ==> final(w).files == old(w).files.insert(dst,
                         FileState { bytes: old(w).files[src].bytes, data: old(w).files[src].data, ..old(w).files[dst] })
-                &&& r != 0 ==> final(w).files == old(w).files && final(w).errno > 0
+                &&& r != 0 ==> final(w).files == old(w).files && final(w).errno > 0 && final(w).errno == kerrno_at(old(w).trace.len())
             }),
     { unimplemented!() }
 }
